@@ -390,6 +390,9 @@ def _native_battery(out, scenario, vectors, what):
     if val.get("native_violations") and all(r.get("status") == "discharged" for r in out):
         out.append(R.Result(engine="mirsym", name="validation:" + what, kind="validation", status="native-battery-disagrees",
                             detail=f"{val['native_violations']} native violation(s) on the validation vectors although every obligation is discharged", bodies=[]))
+    # "a message is left unanswered only if it is a notification" - and then really unanswered: the WebSocket reply decision (shared with C02)
+    from . import C02 as _c02
+    out.append(_c02._ws_reply_decision(srv))
     # "the handler's result for exactly those params": positional params reach the handler through ParamsSequence (C16 decides the decoder in full;
     # here the part a reply depends on: an acceptable element is never refused and the j-th read is the j-th element, whatever the spacing of the text)
     from . import C16 as _c16
